@@ -34,6 +34,7 @@ func Run(tier string, seed int64, outDir string) *common.Meta {
 	}
 	runExprClaims(meta, seed, outDir, nExpr)
 	runCaseOrder(meta, seed, outDir, nSw)
+	runNilValReturn(meta, seed, outDir)
 	meta.Rule = "distinct_nontrivial = number of distinct generated expressions / type switches on which at least one of the claim-producing checkers fired (each compared with the model matcher in Coq and executed with instrumentation)"
 	return meta
 }
@@ -47,7 +48,9 @@ type exprCase struct {
 	msgs map[string][]string // checker -> messages (emission order)
 }
 
-var claimCheckers = []string{"sloppyLen", "badCond", "offBy1", "dupSubExpr"}
+var claimCheckers = []string{"sloppyLen", "badCond", "offBy1", "dupSubExpr", "dupArg"}
+
+const lintHeader = "package p\n\nimport (\n\t\"bytes\"\n\t\"strings\"\n)\n\nvar _ = bytes.Equal\nvar _ = strings.Index\n"
 
 func genClaimExpr(g *exprgen.G, r interface{ Intn(int) int }) string {
 	pick := func(xs ...string) string { return xs[r.Intn(len(xs))] }
@@ -55,7 +58,9 @@ func genClaimExpr(g *exprgen.G, r interface{ Intn(int) int }) string {
 		return pick("a", "b", "c", "a", "fi()", "gi()", "hi(a)", "xs[a]", "a + 1", "(a)", "len(s)", "a * b")
 	}
 	floatX := func() string { return pick("p", "q", "p", "ff()", "p + 1.5", "hf(p)") }
-	constI := func() string { return pick("0", "1", "2", "5", "7", "9", "10", "-3", "2 - 1", "(4)", "3 + 4", "0x10", "010") }
+	constI := func() string {
+		return pick("0", "1", "2", "5", "7", "9", "10", "-3", "2 - 1", "(4)", "3 + 4", "0x10", "010")
+	}
 	constF := func() string { return pick("0.5", "1.5", "2", "7.25", "-1.5", "10") }
 	var e string
 	switch n := r.Intn(100); {
@@ -154,6 +159,27 @@ func genClaimExpr(g *exprgen.G, r interface{ Intn(int) int }) string {
 			}
 			e = wrap(x) + " " + op + " " + wrap(y)
 		}
+	case n < 97: // dupArg
+		sx := pick("s", "t", "fs()", "s + t", `"ab"`, "string(bs)", "s[:]")
+		sy := sx
+		if r.Intn(5) == 0 {
+			sy = pick("s", "t", `"a"`)
+		}
+		switch r.Intn(4) {
+		case 0:
+			e = "strings.Contains(" + sx + ", " + sy + ")"
+		case 1:
+			e = "strings.Index(" + sx + ", " + sy + ") >= a"
+		case 2:
+			e = "strings.Compare(" + sx + ", " + sy + ") == 0"
+		default:
+			bx := pick("bs", "fbs()", "[]byte(s)", "bs[:]")
+			by := bx
+			if r.Intn(5) == 0 {
+				by = pick("bs", "[]byte(t)")
+			}
+			e = "bytes.Equal(" + bx + ", " + by + ")"
+		}
 	default:
 		e = g.BoolExpr()
 	}
@@ -181,7 +207,7 @@ func runExprClaims(meta *common.Meta, seed int64, outDir string, n int) {
 			continue
 		}
 		seen[e] = true
-		probe := "package p\n" + exprgen.LintPreamble + "func f(" + exprgen.Params + ") bool { return " + e + " }\n"
+		probe := lintHeader + exprgen.LintPreamble + "func f(" + exprgen.Params + ") bool { return " + e + " }\n"
 		if _, err := exprgen.Load("p.go", probe); err != nil {
 			rejected++
 			if rejected > 20*n {
@@ -193,7 +219,7 @@ func runExprClaims(meta *common.Meta, seed int64, outDir string, n int) {
 	}
 	meta.Distribution["expr_rejected_by_typecheck"] = rejected
 	var src strings.Builder
-	src.WriteString("package p\n" + exprgen.LintPreamble)
+	src.WriteString(lintHeader + exprgen.LintPreamble)
 	for _, c := range cases {
 		fmt.Fprintf(&src, "func %s(%s) bool { return %s }\n", c.fn, exprgen.Params, c.src)
 	}
@@ -260,14 +286,15 @@ func runExprClaims(meta *common.Meta, seed int64, outDir string, n int) {
 	hdr := "From GC Require Import Base Model_Expr Model_BoolSimp Model_Claims.\n" +
 		"(* (expression, diagnostics of sloppyLen / badCond / offBy1 / dupSubExpr inside it; blanks removed) *)\n" +
 		"Definition norm (l : list string) := map strip_spaces l.\n" +
-		"Definition case_ok (c : expr * (list string * list string * list string * list string)) : bool :=\n" +
-		"  let '(e, (sl, bc, ob, ds)) := c in\n" +
+		"Definition case_ok (c : expr * (list string * list string * list string * list string * list string)) : bool :=\n" +
+		"  let '(e, (sl, bc, ob, ds, da)) := c in\n" +
 		"  is_bool_ty (typeof e) &&\n" +
 		"  list_eqb String.eqb (norm (walk_claims sloppy_len_msgs e)) sl &&\n" +
 		"  list_eqb String.eqb (norm (walk_claims bad_cond_msgs e)) bc &&\n" +
 		"  list_eqb String.eqb (norm (walk_claims off_by1_msgs e)) ob &&\n" +
-		"  list_eqb String.eqb (norm (walk_claims dup_sub_expr_msgs e)) ds.\n" +
-		"Definition cases : list (expr * (list string * list string * list string * list string)) := [\n"
+		"  list_eqb String.eqb (norm (walk_claims dup_sub_expr_msgs e)) ds &&\n" +
+		"  list_eqb String.eqb (norm (walk_claims dup_arg_msgs e)) da.\n" +
+		"Definition cases : list (expr * (list string * list string * list string * list string * list string)) := [\n"
 	const shards = 4
 	bodies := make([][]string, shards)
 	idx := make([][]string, shards)
@@ -286,9 +313,9 @@ func runExprClaims(meta *common.Meta, seed int64, outDir string, n int) {
 			continue
 		}
 		sh := i % shards
-		bodies[sh] = append(bodies[sh], fmt.Sprintf("(%s, (%s, %s, %s, %s))", c.term,
+		bodies[sh] = append(bodies[sh], fmt.Sprintf("(%s, (%s, %s, %s, %s, %s))", c.term,
 			coqfmt.StrList(strip(c.msgs["sloppyLen"])), coqfmt.StrList(strip(c.msgs["badCond"])),
-			coqfmt.StrList(strip(c.msgs["offBy1"])), coqfmt.StrList(strip(c.msgs["dupSubExpr"]))))
+			coqfmt.StrList(strip(c.msgs["offBy1"])), coqfmt.StrList(strip(c.msgs["dupSubExpr"])), coqfmt.StrList(strip(c.msgs["dupArg"]))))
 		idx[sh] = append(idx[sh], fmt.Sprintf("%s => %q", c.src, c.msgs))
 		if len(c.msgs) > 0 {
 			nflag++
@@ -334,6 +361,10 @@ func runExprClaims(meta *common.Meta, seed int64, outDir string, n int) {
 			b := node.(*ast.BinaryExpr)
 			dc.Orig = "fmt.Sprint(" + l.Text(b.X) + ") == fmt.Sprint(" + l.Text(b.Y) + ")"
 			dc.Expect = "true"
+		case "dupArg":
+			ce := node.(*ast.CallExpr)
+			dc.Orig = "fmt.Sprint(" + l.Text(ce.Args[0]) + ") == fmt.Sprint(" + l.Text(ce.Args[1]) + ")"
+			dc.Expect = "true"
 		}
 		dc.Inputs = exprgen.Grid(rg, text, 120)
 		dcs = append(dcs, dc)
@@ -373,6 +404,10 @@ func findFlagged(l *exprgen.Linted, root ast.Expr, pos token.Pos, checker, msg s
 		switch checker {
 		case "offBy1":
 			if _, ok := e.(*ast.IndexExpr); ok {
+				found = e
+			}
+		case "dupArg":
+			if ce, ok := e.(*ast.CallExpr); ok && len(ce.Args) == 2 {
 				found = e
 			}
 		default:
@@ -686,4 +721,141 @@ func runCaseOrder(meta *common.Meta, seed int64, outDir string, n int) {
 	}
 	meta.Evaluations += evals
 	meta.Distribution["caseorder_observations"] = evals
+}
+
+// ---------------------------------------------------------------- nilValReturn
+
+type nvrCase struct {
+	fn, cond, x, y, op string
+	rets               []string
+	extra              bool // a second statement in the if body
+	msgs               []string
+}
+
+func runNilValReturn(meta *common.Meta, seed int64, outDir string) {
+	r := common.NewRand(seed, "c12-nilvalreturn")
+	pick := func(xs ...string) string { return xs[r.Intn(len(xs))] }
+	var cases []*nvrCase
+	seen := map[string]bool{}
+	for tries := 0; tries < 2000 && len(cases) < 120; tries++ {
+		c := &nvrCase{}
+		c.x = pick("xs", "xs", "fxs()", "xs[:]", "(xs)", "xs", "bs")
+		c.op = pick("==", "==", "==", "!=")
+		c.y = "nil"
+		ret := pick(c.x, c.x, "xs", "nil", "fxs()", "xs[:]")
+		if c.x == "bs" || ret == "bs" {
+			c.x, ret = "xs", "xs"
+		}
+		c.cond = c.x + " " + c.op + " " + c.y
+		if r.Intn(8) == 0 {
+			c.cond = c.y + " " + c.op + " " + c.x
+			c.x, c.y = c.y, c.x
+		}
+		c.rets = []string{ret}
+		if r.Intn(3) == 0 {
+			c.rets = append(c.rets, pick("false", "k", "a > b"))
+		}
+		c.extra = r.Intn(8) == 0
+		key := fmt.Sprint(c.cond, c.rets, c.extra)
+		if seen[key] {
+			continue
+		}
+		seen[key] = true
+		c.fn = fmt.Sprintf("n%d", len(cases))
+		cases = append(cases, c)
+	}
+	var src strings.Builder
+	src.WriteString(lintHeader + exprgen.LintPreamble)
+	for _, c := range cases {
+		resT, final := "[]int", "nil"
+		if len(c.rets) == 2 {
+			resT, final = "([]int, bool)", "nil, true"
+		}
+		extra := ""
+		if c.extra {
+			extra = "a++; "
+		}
+		fmt.Fprintf(&src, "func %s(%s) %s {\n\tif %s {\n\t\t%sreturn %s\n\t}\n\treturn %s\n}\n", c.fn, exprgen.Params, resT, c.cond, extra, strings.Join(c.rets, ", "), final)
+	}
+	l, err := exprgen.Load("p.go", src.String())
+	if err != nil {
+		panic(err)
+	}
+	ws, err := l.Run("nilValReturn")
+	if err != nil {
+		panic(err)
+	}
+	byFn := map[string]*nvrCase{}
+	for _, c := range cases {
+		byFn[c.fn] = c
+	}
+	for _, w := range ws {
+		if c := byFn[l.FuncOf(w.Pos)]; c != nil {
+			c.msgs = append(c.msgs, strings.ReplaceAll(w.Text, " ", ""))
+		}
+	}
+	conv := exprgen.NewConv(l.Info, l.File)
+	var bodies, idx []string
+	var dcs []*exprgen.DiffCase
+	rg := common.NewRand(seed, "c12-nvr-grid")
+	nflag := 0
+	for _, d := range l.File.Decls {
+		fd, ok := d.(*ast.FuncDecl)
+		if !ok || byFn[fd.Name.Name] == nil {
+			continue
+		}
+		c := byFn[fd.Name.Name]
+		ifs := fd.Body.List[0].(*ast.IfStmt)
+		cond := ifs.Cond.(*ast.BinaryExpr)
+		xt, err := conv.Expr(cond.X)
+		if err != nil {
+			continue // the left operand is `nil`: outside the fragment, the checker's qualifiedName test fails on the other side
+		}
+		single := len(ifs.Body.List) == 1
+		var results []string
+		if rs, ok := ifs.Body.List[len(ifs.Body.List)-1].(*ast.ReturnStmt); ok {
+			for _, e := range rs.Results {
+				if t, err := conv.Expr(e); err == nil {
+					results = append(results, "Some "+t)
+				} else {
+					results = append(results, "None")
+				}
+			}
+		}
+		if _, isRet := ifs.Body.List[0].(*ast.ReturnStmt); !isRet {
+			single = false
+		}
+		yNil := false
+		if id, ok := cond.Y.(*ast.Ident); ok && id.Name == "nil" {
+			yNil = true
+		}
+		bodies = append(bodies, fmt.Sprintf("({| nvr_single_return := %v; nvr_op_is_eq := %v; nvr_y_is_nil := %v; nvr_x := %s; nvr_results := [%s] |}, %s)",
+			single, cond.Op == token.EQL, yNil, xt, strings.Join(results, "; "), coqfmt.StrList(c.msgs)))
+		idx = append(idx, fmt.Sprintf("if %s { return %v } extra=%v => %q", c.cond, c.rets, c.extra, c.msgs))
+		if len(c.msgs) > 0 {
+			nflag++
+			text := "func() bool { if " + c.cond + " { return (" + l.Text(cond.X) + ") == nil }; return true }()"
+			dcs = append(dcs, &exprgen.DiffCase{ID: len(dcs), Kind: "expr", Orig: text, Expect: "true", Inputs: exprgen.Grid(rg, text, 40), Tag: c})
+		}
+	}
+	common.WriteFile(filepath.Join(outDir, "cases_c12_nilvalreturn.v"),
+		"From GC Require Import Base Model_Expr Model_BoolSimp Model_Claims.\n"+
+			"Definition case_ok (c : nvr_shape * list string) : bool := list_eqb String.eqb (map strip_spaces (nil_val_return_msgs (fst c))) (snd c).\n"+
+			"Definition cases : list (nvr_shape * list string) := [\n"+strings.Join(bodies, ";\n")+"\n].\nDefinition M := Eval vm_compute in mismatches case_ok cases.\nPrint M.\n")
+	common.WriteFile(filepath.Join(outDir, "cases_c12_nilvalreturn.index.txt"), strings.Join(idx, "\n")+"\n")
+	meta.CaseFiles = append(meta.CaseFiles, "cases_c12_nilvalreturn.v")
+	meta.Evaluations += len(bodies)
+	meta.Distinct += nflag
+	meta.Distribution["nilvalreturn_cases"] = len(bodies)
+	meta.Distribution["nilvalreturn_flagged"] = nflag
+	mm, evals, err := exprgen.RunDiff(filepath.Join(outDir, "obs_nvr"), dcs)
+	if err != nil {
+		panic(err)
+	}
+	meta.Evaluations += evals
+	for _, m := range mm {
+		c := m.Case.Tag.(*nvrCase)
+		meta.Fail("C12/nilValReturn/unclassified", fmt.Sprintf("nilValReturn claims the returned %s is nil inside `if %s`, observed %s", c.x, c.cond, m.Orig),
+			map[string]interface{}{"cond": c.cond, "input": m.Input, "observed": m.Orig})
+	}
 }
